@@ -1457,7 +1457,8 @@ def merge_nested_comprehensions(source: str) -> str:
 
                 tf = RenameTransformer(target_name_inner, comprehension.target.id)
 
-                new_generators.extend(tf.visit(comprehension.iter).generators)
+                # comprehension.iter belongs to the cached tree of this source: transform a copy
+                new_generators.extend(tf.visit(copy.deepcopy(comprehension.iter)).generators)
 
             else:
                 new_generators.append(comprehension)
